@@ -728,7 +728,453 @@ def C13(c):
                        "every distinct pairing of the bins (by the manager's canonical form) exactly once, sums consistent and ascending")
 
 
-SUITES = {"C01": C01, "C02": C02, "C03": C03, "C04": C04, "C05": C05, "C06": C06, "C07": C07, "C08": C08, "C09": C09, "C10": C10, "C12": C12, "C13": C13, "C20": C20}
+# ------------------------------------------------------------------------------------------------ C11
+def run_length(alg_key, case):
+    """number of clock readings of an unlimited run under the counting clock = number of interruption points"""
+    from algs import CountingClock, objective_impl
+    import time as real_time
+    vals, p = case["vals"], case["p"]
+    clock = CountingClock()
+    if alg_key == "cg":
+        m = mod("prtpy.partitioning.complete_greedy")
+        m.time = clock
+        try:
+            prtpy.partition(algorithm=prt.cg, numbins=p["k"], items=list(vals), outputtype=out.Sums, **ALGS["cg"].kwargs(dict(p, cut=None)))
+        finally:
+            m.time = real_time
+    else:
+        m = mod("prtpy.partitioning.cbldm")
+        m.time = clock
+        try:
+            prtpy.partition(algorithm=prt.cbldm, numbins=2, items=list(vals), outputtype=out.Sums, **ALGS["cbldm"].kwargs(dict(p, cut=None)))
+        finally:
+            m.time = real_time
+    return clock.t
+
+
+def C11(c):
+    """anytime algorithms are safe to interrupt and only ever improve"""
+    rng = c.rng
+    # ---------- complete greedy: every interruption point of every run in the scope
+    base = []
+    for ms in gen.multisets(range(0, 4), c.n(3, 4)):
+        for k in (1, 2, 3):
+            for sw in (C.SWITCHES if len(ms) <= 3 else rng.sample(C.SWITCHES, 4)):
+                base.append({"alg": "cg", "vals": list(ms), "p": dict(sw, k=k, obj=rng.choice(C.OBJS5[:5]), cut=None)})
+    c.exhaustive_scopes.append(f"complete greedy: all multisets of 1..{c.n(3,4)} values from 0..3 x k in 1..3 x switch combinations x EVERY cut 0..(length of the unlimited run)+1")
+    for e in C.random_part_cases(rng, ["cg"], c.n(40, 400), objs=C.OBJS5[:5], nmax=c.n(6, 8)):
+        e["p"]["k"] = min(e["p"]["k"], 4)
+        base.append(e)
+    cut_cases, groups = [], []
+    for e in base:
+        L = run_length("cg", e)
+        cuts = list(range(0, L + 2)) if L <= c.n(60, 400) else sorted(set(rng.sample(range(0, L + 2), c.n(40, 200)) + [0, 1, 2, L, L + 1]))
+        grp = []
+        for cut in cuts:
+            ce = {"alg": "cg", "vals": e["vals"], "p": dict(e["p"], cut=cut)}
+            cut_cases.append(ce); grp.append(ce)
+        ce = {"alg": "cg", "vals": e["vals"], "p": dict(e["p"], cut=None)}
+        cut_cases.append(ce); grp.append(ce)
+        groups.append(grp)
+    results = {}
+
+    def judge(case, fmt, ot, got, names, ans):
+        results[id(case)] = got
+        if J._is_err(got):
+            return [(None, lambda a: ("exception:" + got["error"], "raised " + got["error"]))]
+        return J.judge_partition(case, fmt, ot, got, names, ans, allow_none=case["p"].get("cut") is not None)
+
+    c.corr("cg-every-cut", cut_cases, combos_of(["list"], [PT]), judge=judge)
+    greedy_sums = {}
+    for grp in groups:
+        o = grp[0]["p"]["obj"]
+        prev = None
+        first_seen = False
+        for ce in grp:
+            got = results.get(id(ce))
+            if got is None or J._is_err(got):
+                continue
+            label = dict(ce["p"], vals=ce["vals"], alg="cg")
+            if J._is_none(got):
+                c.check_direct("cg", label, "regressed-to-none", prev is None, got, "once a solution exists, a longer run must not return no-solution")
+                continue
+            v = obj_value(o, got["sums"])
+            if prev is not None:
+                c.check_direct("cg", label, "got-worse", v <= prev, got["sums"], f"objective value <= {prev} (value with a shorter limit)")
+            prev = v if prev is None else min(prev, v)
+            if not first_seen:
+                first_seen = True
+                key = (tuple(ce["vals"]), ce["p"]["k"])
+                if key not in greedy_sums:
+                    greedy_sums[key] = sorted(prtpy.partition(algorithm=prt.greedy, numbins=ce["p"]["k"], items=list(ce["vals"]), outputtype=out.Sums))
+                lpt = [num(x) for x in greedy_sums[key]]
+                same_value = obj_value(o, got["sums"]) == obj_value(o, lpt)
+                kind = "first-solution-not-lpt" + (":same-objective-value" if same_value else "")
+                c.check_direct("cg", label, kind, sorted(got["sums"]) == lpt, got["sums"],
+                               f"the first solution has the greedy (LPT) sums {lpt}")
+    # no limit => optimal (verified oracle)
+    jo = J.judge_optimal(lambda case: case["p"]["obj"])
+    c.corr("cg-no-limit-optimal", [g[-1] for g in groups], combos_of(["list"], [PT]), judge=jo)
+
+    # ---------- CBLDM: every interruption point
+    cb = []
+    for ms in gen.multisets(range(0, 4), c.n(5, 6)):
+        for d in (1, 2, None):
+            cb.append({"alg": "cbldm", "vals": list(ms), "p": {"k": 2, "d": d, "cut": None}})
+    c.exhaustive_scopes.append(f"cbldm: all multisets of 1..{c.n(5,6)} values from 0..3 x d in (1,2,unbounded) x EVERY cut 1..(number of calls of part)+1")
+    for _ in range(c.n(40, 400)):
+        n = rng.randint(1, c.n(9, 11))
+        cb.append({"alg": "cbldm", "vals": gen.rand_vals(rng, n), "p": {"k": 2, "d": rng.choice([1, 2, 3, None, None]), "cut": None}})
+    cb_cases, cb_groups = [], []
+    for e in cb:
+        L = run_length("cbldm", e)
+        cuts = list(range(1, L + 2)) if L <= c.n(60, 400) else sorted(set(rng.sample(range(1, L + 2), c.n(40, 200)) + [1, 2, L, L + 1]))
+        grp = [{"alg": "cbldm", "vals": e["vals"], "p": dict(e["p"], cut=cut)} for cut in cuts] + [e]
+        cb_cases += grp; cb_groups.append(grp)
+    results.clear()
+
+    def judge_cb(case, fmt, ot, got, names, ans):
+        results[id(case)] = got
+        if J._is_err(got):
+            return [(None, lambda a: ("exception:" + got["error"], "raised " + got["error"]))]
+        res = J.judge_partition(case, fmt, ot, got, names, ans, allow_none=case["p"].get("cut") is not None)
+        d = case["p"].get("d")
+        if not J._is_none(got) and d is not None and len(got["bins"]) == 2 and abs(len(got["bins"][0]) - len(got["bins"][1])) > d:
+            res.append((None, lambda a: ("cardinality", f"bin cardinalities differ by more than {d}")))
+        return res
+
+    c.corr("cbldm-every-cut", cb_cases, combos_of(["list"], [PT]), judge=judge_cb)
+    for grp in cb_groups:
+        prev = None
+        for ce in grp:
+            got = results.get(id(ce))
+            if got is None or J._is_err(got):
+                continue
+            label = dict(ce["p"], vals=ce["vals"], alg="cbldm")
+            if J._is_none(got):
+                c.check_direct("cbldm", label, "regressed-to-none", prev is None, got, "once a solution exists, a longer run must not return the placeholder")
+                continue
+            v = abs(got["sums"][0] - got["sums"][1])
+            if prev is not None:
+                c.check_direct("cbldm", label, "got-worse", v <= prev, got["sums"], f"sum difference <= {prev} (value with a shorter limit)")
+            prev = v if prev is None else min(prev, v)
+
+    # ---------- the CKK generator: whole yield sequence
+    from prtpy.partitioning.complete_karmarkar_karp_sy import generator as ckk_generator
+    gcases = []
+    for ms in gen.multisets(range(0, 5), c.n(4, 5)):
+        for k in (1, 2, 3):
+            gcases.append((list(ms), k))
+    c.exhaustive_scopes.append(f"ckk generator: all multisets of 1..{c.n(4,5)} values from 0..4 x k in 1..3, whole yield sequence")
+    for _ in range(c.n(150, 1500)):
+        n = rng.randint(1, 8)
+        gcases.append((gen.rand_vals(rng, n), rng.choice([2, 2, 3, 3, 4]) if n <= 6 else rng.choice([2, 3])))
+    triples = []
+    for vals, k in gcases:
+        ids = list(range(len(vals)))
+        def thunk(vals=vals, k=k):
+            bk = prtpy.BinnerKeepingContents(vals.__getitem__)
+            return [{"sums": [num(x) for x in y[0]], "bins": [list(l) for l in y[1]]} for y in ckk_generator(bk, k, list(range(len(vals))))]
+        triples.append((f"ckkgen k={k} contents=1 bound=inf items={f_items(vals, ids)}", thunk, {"alg": "ckk.generator", "vals": vals, "k": k}))
+    c.direct("ckk-generator", triples, nontrivial=lambda label, ans: isinstance(ans, list) and len(ans) >= 2)
+    pend = []
+    for line, thunk, label in triples:
+        vals, k = label["vals"], label["k"]
+        try:
+            ys = thunk()
+        except Exception as e:      # noqa
+            c.check_direct("ckk.generator", label, "exception:" + exc_name(e), False, None, "a sequence of partitions")
+            continue
+        diffs = [max(y["sums"]) - min(y["sums"]) for y in ys]
+        c.check_direct("ckk.generator", label, "not-strictly-improving", all(diffs[i] > diffs[i + 1] for i in range(len(diffs) - 1)) and len(ys) >= 1,
+                       diffs, "each yielded partition strictly better than the previous, at least one yielded")
+        case = {"alg": "ckk.generator", "vals": vals, "p": {"k": k}}
+        for y in ys:
+            for ln, pred in J.judge_partition(case, "names_valueof", PT, y, list(range(len(vals))), None):
+                pend.append((ln, pred, (case, "names_valueof", PT, y)))
+        if ys and len(vals) <= 9:
+            last = diffs[-1]
+            pend.append((f"opt_partition obj=diff k={k} vals={f_nats(vals)}",
+                         lambda a, last=last: None if a == last else ("last-not-optimal", f"the last yielded difference is {last}, the optimum {a}"),
+                         (case, "names_valueof", PT, ys[-1])))
+    c.run_pending(pend)
+
+
+# ------------------------------------------------------------------------------------------------ C16
+class OpSeq:
+    """a disciplined operation sequence over a pool of bins-arrays (C16): tracks liveness and sizes like the spec does"""
+    def __init__(self):
+        self.ops = []          # tuples
+        self.live = []         # per handle: number of bins, or None when handed over
+        self.next_item = 0
+
+    def clone(self):
+        o = OpSeq(); o.ops = list(self.ops); o.live = list(self.live); o.next_item = self.next_item
+        return o
+
+    def live_ids(self):
+        return [i for i, n in enumerate(self.live) if n is not None]
+
+    def apply(self, op):
+        k = op[0]
+        if k == "new":
+            self.live.append(op[1])
+        elif k == "add":
+            self.next_item += 1
+        elif k == "copy":
+            self.live.append(self.live[op[1]])
+        elif k == "addempty":
+            self.live.append(self.live[op[1]] + op[2]); self.live[op[1]] = None
+        elif k == "remove":
+            self.live.append(self.live[op[1]] - op[2]); self.live[op[1]] = None
+        elif k == "concat":
+            self.live.append(self.live[op[1]] + self.live[op[2]]); self.live[op[1]] = None; self.live[op[2]] = None
+        self.ops.append(op)
+
+    def choices(self, values=(0, 1, 3), news=(1, 2), small=True):
+        """every disciplined next operation with small parameters"""
+        res = [("new", k) for k in news]
+        L = self.live_ids()
+        for h in L:
+            n = self.live[h]
+            for i in (range(n) if not small else sorted({0, n - 1} & set(range(n)))):
+                for val in values[: (2 if small else len(values))]:
+                    res.append(("add", h, self.next_item, val, i))
+            res.append(("copy", h)); res.append(("sort", h))
+            res.append(("addempty", h, 1))
+            for r in sorted({0, 1, n} & set(range(0, n + 1))):
+                res.append(("remove", h, r))
+            for h2 in L:
+                if h2 != h:
+                    res.append(("concat", h, h2))
+                    if n and self.live[h2]:
+                        res.append(("combine", h, n - 1, h2, 0))
+        return res
+
+    def line(self):
+        def f(op):
+            k = op[0]
+            if k == "add":
+                return f"add:{op[1]},{op[2]}:{op[3]},{op[4]}"
+            if k in ("new", "copy", "sort"):
+                return f"{k}:{op[1]}"
+            return k + ":" + ",".join(str(x) for x in op[1:])
+        return ";".join(f(o) for o in self.ops) if self.ops else "~"
+
+
+def run_ops_impl(ops, contents):
+    """run the operations on the real manager; returns the observation of EVERY array after every operation"""
+    from prtpy.binners import BinnerKeepingSums, BinnerKeepingContents
+    values = {}
+    bk = (BinnerKeepingContents if contents else BinnerKeepingSums)(values.__getitem__)
+    arrs, trace = [], []
+
+    def observe(a):
+        if contents:
+            return {"sums": [num(x) for x in a[0]], "bins": [list(l) for l in a[1]]}
+        return {"sums": [num(x) for x in a]}
+    for op in ops:
+        k = op[0]
+        try:
+            if k == "new":
+                arrs.append(bk.new_bins(op[1]))
+            elif k == "add":
+                values[op[2]] = op[3]
+                bk.add_item_to_bin(arrs[op[1]], op[2], op[4])
+            elif k == "copy":
+                arrs.append(bk.copy_bins(arrs[op[1]]))
+            elif k == "sort":
+                bk.sort_by_ascending_sum(arrs[op[1]])
+            elif k == "addempty":
+                arrs.append(bk.add_empty_bins(arrs[op[1]], op[2]))
+            elif k == "remove":
+                arrs.append(bk.remove_bins(arrs[op[1]], op[2]))
+            elif k == "concat":
+                arrs.append(bk.concatenate_bins(arrs[op[1]], arrs[op[2]]))
+            elif k == "combine":
+                bk.combine_bins(arrs[op[1]], op[2], arrs[op[3]], op[4])
+        except Exception as e:      # noqa
+            trace.append({"error": exc_name(e)})
+            break
+        trace.append([observe(a) for a in arrs])
+    return trace, values
+
+
+def C16(c):
+    """bins-manager operations keep sums and contents consistent, copies independent"""
+    rng = c.rng
+    seqs = []
+    depth = c.n(3, 4)
+
+    def dfs(sq, d):
+        if sq.ops:
+            seqs.append(sq)
+        if d == 0:
+            return
+        for op in sq.choices():
+            n = sq.clone(); n.apply(op)
+            dfs(n, d - 1)
+    root = OpSeq(); root.apply(("new", 2))
+    dfs(root, depth)
+    c.exhaustive_scopes.append(f"every disciplined operation sequence of length <= {depth + 1} starting with new_bins(2), with small parameters "
+                               f"(new 1|2 bins, add value 0|1 to the first/last bin, copy, sort, add_empty 1, remove 0|1|all, concatenate, combine)")
+    n_ex = len(seqs)
+    for _ in range(c.n(400, 4000)):
+        sq = OpSeq(); sq.apply(("new", rng.randint(1, 4)))
+        for _ in range(rng.randint(3, c.n(25, 40))):
+            ch = sq.choices(values=(0, 1, 2, 3, 5, 8), news=(0, 1, 2, 3), small=False)
+            w = [(6 if o[0] == "add" else 3 if o[0] in ("sort", "copy") else 1) for o in ch]
+            sq.apply(rng.choices(ch, weights=w)[0])
+            if len(sq.live) > 12:
+                break
+        seqs.append(sq)
+    lines = [sq.line() for sq in seqs]
+    heap = model_query([f"heap ops={l}" for l in lines])
+    pure = model_query([f"heap_pure ops={l}" for l in lines])
+    for idx, (sq, hp, pu) in enumerate(zip(seqs, heap, pure)):
+        stream = "exhaustive" if idx < n_ex else "random"
+        if isinstance(pu, dict) and "undisciplined" in pu:
+            raise InfraError(f"generator produced an undisciplined sequence: {sq.line()}")
+        for contents in (True, False):
+            tr, values = run_ops_impl(sq.ops, contents)
+            c.evaluations += 1; c.corr_cases += 1
+            c.stats[stream]["cases"] += 1
+            c.stats[stream]["ops"] += len(sq.ops)
+            for o in sq.ops:
+                c.stats[stream]["op:" + o[0]] += 1
+            c.distinct.add((sq.line(), contents))
+            if len({o[0] for o in sq.ops}) >= 3:
+                c.nontrivial.add((sq.line(), contents))
+            want = hp if contents else [([{"sums": a["sums"]} for a in st] if isinstance(st, list) else st) for st in hp]
+            label = {"alg": "BinnerKeepingContents" if contents else "BinnerKeepingSums", "vals": [], "ops": sq.line()}
+            if tr != want:
+                # first differing step
+                j = next((i for i, (x, y) in enumerate(zip(tr, want)) if x != y), min(len(tr), len(want)))
+                c.disagreements.append({"stream": stream, "alg": label["alg"], "case": {"vals": [], "p": label}, "fmt": "direct", "outtype": "-",
+                                        "impl": tr[j] if j < len(tr) else None, "model": want[j] if j < len(want) else None,
+                                        "request": f"heap ops={sq.line()} (first difference after operation {j}: {sq.ops[j] if j < len(sq.ops) else None})"})
+            c.sample({"request": f"heap ops={sq.line()}", "manager": label["alg"], "impl_final": tr[-1] if tr else None, "model_final": want[-1] if want else None})
+            # the property itself, on the implementation: every live array equals the specification's value and is consistent
+            if tr and isinstance(tr[-1], list) and isinstance(pu, list):
+                for h, (obs, spec) in enumerate(zip(tr[-1], pu)):
+                    if spec is None:
+                        continue
+                    ok = obs["sums"] == spec["sums"] and (not contents or obs["bins"] == spec["bins"])
+                    c.check_direct(label["alg"], dict(label, handle=h), "documented-effect", ok, obs, f"the value the documented operations give: {spec}")
+                    if contents:
+                        okc = obs["sums"] == [sum(values[i] for i in b) for b in obs["bins"]]
+                        c.check_direct(label["alg"], dict(label, handle=h), "inconsistent-sums", okc, obs, "every bin's sum equals the total value of its recorded items")
+            elif tr and not isinstance(tr[-1], list):
+                c.check_direct(label["alg"], label, "exception:" + tr[-1]["error"], False, tr[-1], "no exception on a disciplined sequence")
+
+
+# ------------------------------------------------------------------------------------------------ C14
+def textbook(alg, vals, p):
+    """direct transcriptions of the documented rules on plain lists of values -> bins (lists of values)"""
+    if alg == "greedy":          # LPT: largest first, each to a bin of minimum sum
+        bins = [[] for _ in range(p["k"])]
+        for x in sorted(vals, reverse=True):
+            min(bins, key=sum).append(x)
+        return bins
+    if alg == "roundrobin":      # cyclic dealing of the sorted items
+        s = sorted(vals, reverse=True)
+        return [s[i::p["k"]] for i in range(p["k"])]
+    if alg in ("ff", "ffd", "bf", "bfd"):
+        B = p["B"]
+        seq = sorted(vals, reverse=True) if alg.endswith("d") else list(vals)
+        bins = []
+        for x in seq:
+            fit = [b for b in bins if sum(b) + x <= B]
+            if not fit:
+                bins.append([x])
+            elif alg.startswith("ff"):
+                fit[0].append(x)
+            else:
+                max(fit, key=sum).append(x)       # a fullest bin that fits
+        return bins if bins else [[]]
+    B = p["B"]
+    s = sorted(vals, reverse=True)
+    if alg == "cover_decreasing":  # next-fit decreasing: close a bin as soon as it is covered; drop the unfinished one
+        bins, cur = [], []
+        for x in s:
+            cur.append(x)
+            if sum(cur) >= B:
+                bins.append(cur); cur = []
+        return bins
+    if alg == "twothirds":        # open with the largest, fill with the smallest until covered
+        bins = []
+        while s:
+            cur = [s.pop(0)]
+            while s and sum(cur) < B:
+                cur.append(s.pop())
+            if sum(cur) >= B:
+                bins.append(cur)
+        return bins
+    if alg == "threequarters":
+        X = [x for x in s if 2 * x >= B]; Y = [x for x in s if 3 * x >= B and 2 * x < B]; Z = [x for x in s if 3 * x < B]
+        bins = []
+
+        def nfd(cur, seq):
+            for x in seq:
+                cur.append(x)
+                if sum(cur) >= B:
+                    bins.append(cur); cur = []
+            return cur
+        cur = []
+        while True:
+            if not Z:
+                cur = nfd(nfd(cur, X), Y); break
+            if not X and not Y:
+                cur = nfd(cur, Z); break
+            if sum(X[:1]) >= sum(Y[:2]):
+                cur += X[:1]; X = X[1:]
+            else:
+                cur += Y[:2]; Y = Y[2:]
+            while Z and sum(cur) < B:
+                cur.append(Z.pop())
+            if sum(cur) >= B:
+                bins.append(cur); cur = []
+        return bins
+    raise ValueError(alg)
+
+
+def C14(c):
+    """simple heuristics compute exactly what their textbook definitions prescribe"""
+    rng = c.rng
+    NOFREEDOM = {"roundrobin", "ff", "ffd", "cover_decreasing", "twothirds", "threequarters"}
+
+    def judge(case, fmt, ot, got, names, ans):
+        a, vals, p = case["alg"], case["vals"], case["p"]
+        if ot != PT:
+            return []
+        if a in C.PACKERS and any(v > p["B"] for v in vals):
+            return []
+        if J._is_err(got):
+            return [(None, lambda x: ("exception:" + got["error"], "raised " + got["error"]))]
+        tb = textbook(a, vals, p)
+        res = []
+        if sorted(got["sums"]) != sorted(sum(b) for b in tb):
+            res.append((None, lambda x: ("textbook-sums", f"bin sums {sorted(got['sums'])} differ from the documented rule's {sorted(sum(b) for b in tb)}")))
+        elif a in NOFREEDOM and sorted(sorted(b) for b in got["bins"]) != sorted(sorted(b) for b in tb):
+            res.append((None, lambda x: ("textbook-bins", f"bins {got['bins']} differ (as multisets of values) from the documented rule's {tb}")))
+        return res
+
+    part = ["greedy", "roundrobin"]
+    c.corr("corpus", corpus("C14"), combos_of(["list"], [PT]), judge=judge)
+    ex = C.exhaustive_part_cases(part, c.n(5, 6), c.n(4, 5), c.n([1, 2, 3], [1, 2, 3, 4]), rng)
+    c.corr("exhaustive-part", ex, combos_of(["list"], [PT]), judge=judge)
+    exp = C.exhaustive_pack_cases(C.PACKERS, c.n([4, 6], [4, 6, 7]), c.n(4, 5), all_orders_upto=c.n(4, 5))
+    c.corr("exhaustive-pack", exp, combos_of(["list"], [PT]), judge=judge)
+    exc = C.exhaustive_cover_cases(C.COVERS, c.n([6], [6, 12]), c.n(5, 6))
+    c.corr("exhaustive-cover", exc, combos_of(["list"], [PT]), judge=judge)
+    c.exhaustive_scopes.append(f"greedy/round-robin: multisets of <= {c.n(5,6)} values 0..{c.n(4,5)}, k in {c.n([1,2,3],[1,2,3,4])}; fit heuristics: every arrival order of "
+                               f"multisets of <= {c.n(4,5)} values 1..B, B in {c.n([4,6],[4,6,7])}; covers: multisets of <= {c.n(5,6)} values 1..B+2, B in {c.n([6],[6,12])} (thresholds B/2, B/3 hit exactly)")
+    c.corr("random-part", C.random_part_cases(rng, part, c.n(300, 4000), nmax=30), combos_of(["list"], [PT]), judge=judge)
+    c.corr("random-pack", C.random_pack_cases(rng, C.PACKERS, c.n(300, 4000), nmax=c.n(20, 40)), combos_of(["list"], [PT]), judge=judge)
+    c.corr("random-cover", C.random_cover_cases(rng, C.COVERS, c.n(400, 5000), nmax=c.n(20, 40)), combos_of(["list"], [PT]), judge=judge)
+
+
+SUITES = {"C01": C01, "C02": C02, "C03": C03, "C04": C04, "C05": C05, "C06": C06, "C07": C07, "C08": C08, "C09": C09, "C10": C10, "C11": C11, "C12": C12, "C13": C13, "C14": C14, "C16": C16, "C20": C20}
 
 LEVELS = {}
 FINISH = {}
